@@ -77,13 +77,16 @@ def read_swan(filename, dirorder=True, as_site=False):
             )
 
     if swanfile.is_grid:
+        # Place each spectrum at its own header coordinates, whatever the listing order
+        arr = np.array(spec_list).reshape(len(times), len(sites), len(freqs), len(dirs))
+        xsites, ysites = lons, lats
         lons = sorted(np.unique(lons))
         lats = sorted(np.unique(lats))
-        arr = np.array(spec_list).reshape(
-            len(times), len(lons), len(lats), len(freqs), len(dirs)
-        )
+        grid = np.empty((len(times), len(lats), len(lons), len(freqs), len(dirs)))
+        for isite, (x, y) in enumerate(zip(xsites, ysites)):
+            grid[:, lats.index(y), lons.index(x)] = arr[:, isite]
         dset = xr.DataArray(
-            data=np.swapaxes(arr, 1, 2),
+            data=grid,
             coords=OrderedDict(
                 (
                     (attrs.TIMENAME, times),
